@@ -2,7 +2,7 @@
    solicitations for a handled address are answered, correctly, and nothing else
    at these layers is. This file only pins the statement; the proof is in
    Proofs/C05.v. *)
-From MS Require Import L2 Spec.View Spec.RefDec Spec.C05 Proofs.C05.
+From MS Require Import L2 Spec.View Spec.RefDec Spec.C05 Proofs.C05 Proofs.C05Cor.
 
 (* For every configuration, table and frame: what is emitted satisfies the C05
    monitor. On a frame accepted at layer 2: an ARP request (operation 1) for a
@@ -23,3 +23,64 @@ Theorem C05_l2l3_services :
 Proof. exact l2l3_services. Qed.
 
 Print Assumptions C05_l2l3_services.
+
+(* The negative clauses as plain implications (no monitor in the statement).
+   Common premises: the frame is at least 14 octets long and addressed to a MAC
+   the responder accepts. *)
+
+(* An ARP packet whose operation is not 1 (request), or whose target protocol
+   address is not handled, gets nothing. *)
+Theorem C05_arp_other_silent :
+  forall E cfg clk tb tb' f r evs,
+    cfg_ok cfg = true -> bytes_ok f = true ->
+    reply E cfg clk tb f = Ok (tb', r, evs) ->
+    (length f <? 14)%nat = false -> ref_auth cfg (firstn 6 f) = true ->
+    forall q, u16_at 12 f = 2054 -> dec_arp (skipn 14 f) = Some q ->
+    (da_op q =? 1) && handled cfg (V4 (da_tpa q)) = false -> r = None.
+Proof. exact arp_silence. Qed.
+Print Assumptions C05_arp_other_silent.
+
+(* An ARP packet too short to decode gets nothing. *)
+Theorem C05_arp_short_silent :
+  forall E cfg clk tb tb' f r evs,
+    cfg_ok cfg = true -> bytes_ok f = true ->
+    reply E cfg clk tb f = Ok (tb', r, evs) ->
+    (length f <? 14)%nat = false -> ref_auth cfg (firstn 6 f) = true ->
+    u16_at 12 f = 2054 -> dec_arp (skipn 14 f) = None -> r = None.
+Proof. exact arp_short_silence. Qed.
+Print Assumptions C05_arp_short_silent.
+
+(* An ICMPv4 message other than (type 8, code 0) gets nothing. *)
+Theorem C05_icmp4_other_silent :
+  forall E cfg clk tb tb' f r evs,
+    cfg_ok cfg = true -> bytes_ok f = true ->
+    reply E cfg clk tb f = Ok (tb', r, evs) ->
+    (length f <? 14)%nat = false -> ref_auth cfg (firstn 6 f) = true ->
+    forall v, u16_at 12 f <> 2054 -> view cfg f = Some v -> v_v4 v = true -> v_proto v = 1 ->
+    (4 <=? length (v_l4 v))%nat = true ->
+    (u8_at 0 (v_l4 v) =? 8) && (u8_at 1 (v_l4 v) =? 0) = false -> r = None.
+Proof. exact icmp4_other_silence. Qed.
+Print Assumptions C05_icmp4_other_silent.
+
+(* An ICMPv6 message with a non-zero code gets nothing, whatever its type. *)
+Theorem C05_icmp6_code_silent :
+  forall E cfg clk tb tb' f r evs,
+    cfg_ok cfg = true -> bytes_ok f = true ->
+    reply E cfg clk tb f = Ok (tb', r, evs) ->
+    (length f <? 14)%nat = false -> ref_auth cfg (firstn 6 f) = true ->
+    forall v, u16_at 12 f <> 2054 -> view cfg f = Some v -> v_v4 v = false -> v_proto v = 58 ->
+    u8_at 1 (v_l4 v) <> 0 -> r = None.
+Proof. exact icmp6_code_silence. Qed.
+Print Assumptions C05_icmp6_code_silent.
+
+(* An ICMPv6 message whose type is neither 128 (echo request) nor 135
+   (neighbour solicitation) gets nothing. *)
+Theorem C05_icmp6_other_type_silent :
+  forall E cfg clk tb tb' f r evs,
+    cfg_ok cfg = true -> bytes_ok f = true ->
+    reply E cfg clk tb f = Ok (tb', r, evs) ->
+    (length f <? 14)%nat = false -> ref_auth cfg (firstn 6 f) = true ->
+    forall v, u16_at 12 f <> 2054 -> view cfg f = Some v -> v_v4 v = false -> v_proto v = 58 ->
+    u8_at 0 (v_l4 v) <> 128 -> u8_at 0 (v_l4 v) <> 135 -> r = None.
+Proof. exact icmp6_other_type_silence. Qed.
+Print Assumptions C05_icmp6_other_type_silent.
